@@ -37,5 +37,10 @@ if [ -x "props/$CRATE/pre.sh" ]; then (unset CARGO_TARGET_DIR; "props/$CRATE/pre
 timeout 3000 "$W/target/release/$CRATE" check --tier "$TIER" --seed "${VERIF_SEED:-0}" "$@" > "$W/out.log" 2>&1
 rc=$?
 grep -E "^(FAILED|VIOLATION|KNOWN-FINDING|C[0-9]+ )" "$W/out.log" | cut -c1-300 | head -12
+if [ $rc -eq 0 ] && [ "$TIER" = "quick" ] && [ -z "${MUT_NO_POST:-}" ] && [ $# -eq 0 ] && [ -x "props/$CRATE/post.sh" ]; then
+  # quick-tier post step (second build variants); only for full runs (no --only filter)
+  (unset CARGO_TARGET_DIR; "props/$CRATE/post.sh" quick) > "$W/post.log" 2>&1; rc=$?
+  grep -E "^(FAILED|VIOLATION|asm variant)" "$W/post.log" | cut -c1-300 | head -6
+fi
 if [ $rc -eq 1 ]; then echo "MUTANT DETECTED ($ID, exit 1)"; elif [ $rc -eq 0 ]; then echo "MUTANT MISSED ($ID, exit 0)"; else echo "MUTANT run inconclusive rc=$rc"; tail -5 "$W/out.log"; fi
 exit $rc
